@@ -424,4 +424,19 @@ theorem table_entry_uses_sizeClass (p : Nat) (ps : List Nat) (hp : p ≠ 0) :
       | (none, k) => (encTableGo ps 0).map (fun bs => entryBytes p k.toNat ++ bs) := encTableGo_sizeClass p ps hp
 example : encTableGo [16384] 0 = some [2, 0, 1] := by decide
 
+open Generated in
+/-- `RAnsDecoder<12>::read_init` (ans.h; with `mem_get_le32`) on a four byte buffer whose last byte announces the
+    four-byte state class (`x == 3`): the state is the little-endian value masked to 30 bits plus `l_rans_base`, and the
+    call fails exactly when it is not below `l_rans_base * 256` — what `ransReadInit` computes
+    (`Generated.ransReadInit_x3`).  Partial: the classes `x = 0, 1, 2` and longer buffers are translated
+    (`Generated.RAnsDecoder.read_init`) but tied by correspondence only. -/
+theorem source_ransReadInit_x3_is_model (a : Generated.AnsDecoder) (buf : Int → Int) (hb : ∀ i, 0 ≤ buf i ∧ buf i < 256)
+    (h3 : buf 3 / 64 = 3) :
+    RAnsDecoder.read_init a buf 4 =
+      (if (buf 3 * 16777216 + buf 2 * 65536 + buf 1 * 256 + buf 0) % 1073741824 + 16384 ≥ 4194304 then 1 else 0,
+        { buf_offset := 0, state := (buf 3 * 16777216 + buf 2 * 65536 + buf 1 * 256 + buf 0) % 1073741824 + 16384 }) :=
+  RAnsDecoder_read_init_x3 a buf hb h3
+example : (Generated.RAnsDecoder.read_init ⟨0, 0⟩ (fun i => if i = 3 then 192 else if i = 1 then 7 else 0) 4).2.state = 7 * 256 + 16384 := by
+  rw [source_ransReadInit_x3_is_model _ _ (by intro i; split <;> (try split) <;> omega) (by decide)]; decide
+
 end Draco
